@@ -91,6 +91,9 @@ static void body(void) {
         workers = 1 + vx_choose(2); overlap = 9; { int half = vx_choose(3); size_t h = half == 0 ? g_jobsize / 2 : half == 1 ? g_jobsize / 4 : g_jobsize - 1;
         st[0] = (step_t){ h, 1u << 20, ZSTD_e_flush, 0 }; for (int k = 1; k <= 6; k++) st[k] = (step_t){ h + (size_t)k * g_jobsize, 1u << 20, ZSTD_e_continue, 0 };
         n = h + 6 * g_jobsize + 100; st[7] = (step_t){ n, 1u << 20, ZSTD_e_end, 0 }; nsteps = 8; checksum = 1; } break; }
+    case 17: {   /* slow consumer: 12 jobs of input offered while only one byte of output room is given per call, so the job table fills up completely; then end with ample room */
+        workers = 1 + vx_choose(2); n = 12 * g_jobsize + 77; checksum = 1;
+        st[0] = (step_t){ 6 * g_jobsize, 1, ZSTD_e_continue, 0 }; st[1] = (step_t){ n, 1, ZSTD_e_continue, 0 }; st[2] = (step_t){ n, 1u << 20, ZSTD_e_end, 0 }; nsteps = 3; break; }
     case 16: {   /* long-distance matching with 3-4 workers and 16 jobs fed two at a time: the caller runs several sections ahead of a delayed job's serial step while the round buffer wraps */
         workers = 3 + vx_choose(2); ldm = 1; checksum = 1; n = 24 * g_jobsize + 50;      /* window 4 KiB: the round buffer (window + slack) wraps every ~7 jobs */
         for (int k = 0; k < 12; k++) st[k] = (step_t){ (size_t)(k + 1) * 2 * g_jobsize, 1u << 20, ZSTD_e_continue, 0 };
@@ -166,6 +169,7 @@ static void body(void) {
     if (g_driver == 13) slot = (13 * 64 + pairIdx) & 4095;
     if (g_driver == 14) slot = (14 * 64 + (int)(n % 61)) & 4095;
     if (g_driver == 16) slot = (16 * 64) & 4095;
+    if (g_driver == 17) slot = (17 * 64) & 4095;
     if (g_driver == 15) slot = (15 * 64 + pairIdx) & 4095;
     if (g_driver == 12) slot = (12 * 64 + (int)(n % 61)) & 4095;                /* D12's input and call boundaries depend on its choices: one subject per (n) */   /* second frame is the same subject for every abort point / worker change */
     uint64_t prev = __sync_val_compare_and_swap(&g_first[slot], 0, h);
